@@ -526,7 +526,7 @@ func runC10(a Args) tr.Summary {
 
 type c09Case struct {
 	Kind    string `json:"kind"`
-	Mode    string `json:"mode"` // reverse | shuffle | dup | stray | wrap
+	Mode    string `json:"mode"` // reverse | shuffle | dup | stray | wrap | wrap-high | rcall...
 	Callers int    `json:"callers"`
 	Calls   int    `json:"calls"`
 	Seed    int64  `json:"seed"`
@@ -556,7 +556,7 @@ func c09Run(t *tr.Writer, id int, c c09Case) {
 	emitRet := func(cc, n int, r muxRet) {
 		t.Emit(tr.Rec{"ev": "ret", "c": cc, "n": n, "kind": r.kind, "rc": r.rc, "rn": r.rn, "ms": 0, "bound": 1, "err": r.err})
 	}
-	if c.Mode == "wrap" {
+	if c.Mode == "wrap" || c.Mode == "wrap-high" {
 		// one slow call pending at index i; the counter is moved so that the next call is given the
 		// same masked index (what 2^15 resp. 2^31 further calls would do)
 		slow := e.call(1, 1, 0)
@@ -568,7 +568,16 @@ func c09Run(t *tr.Writer, id int, c c09Case) {
 		cmu.Lock()
 		ca := connArg
 		cmu.Unlock()
-		e.setCounter(ca, int32(r1.Index-1))
+		next := int32(r1.Index - 1)
+		if c.Mode == "wrap-high" {
+			// the raw counter one full period further: the bit just above the index mask is set
+			if c.Kind == "udp" {
+				next |= 0x8000
+			} else {
+				next = int32(uint32(next) | 0x80000000)
+			}
+		}
+		e.setCounter(ca, next)
 		second := e.call(2, 1, 0)
 		r2, ok2 := e.peer.Next(2 * time.Second)
 		// answer the slow call first, then the second
@@ -654,9 +663,9 @@ func runC09(a Args) tr.Summary {
 		reps, callers, calls = 10, 32, 12
 	}
 	for _, kind := range []string{"tcp", "unix", "udp", "ws"} {
-		for _, mode := range []string{"reverse", "shuffle", "dup", "stray", "wrap"} {
+		for _, mode := range []string{"reverse", "shuffle", "dup", "stray", "wrap", "wrap-high"} {
 			for r := 0; r < reps; r++ {
-				if mode == "wrap" && r > 0 {
+				if strings.HasPrefix(mode, "wrap") && r > 0 {
 					continue
 				}
 				id++
@@ -669,11 +678,13 @@ func runC09(a Args) tr.Summary {
 		}
 	}
 	for _, kind := range []string{"tcp", "mock"} {
-		for _, mode := range []string{"rcall", "rcall-idle", "rcall-idlestop", "rcall-race", "rcall-stale", "rcall-wake"} {
+		for _, mode := range []string{"rcall", "rcall-idle", "rcall-idlestop", "rcall-race", "rcall-stale", "rcall-wake", "rcall-script"} {
 			id++
 			c := c09Case{kind, mode, 8, calls * 3, a.Seed*1000 + int64(id)}
 			if mode == "rcall-idle" {
 				c.Calls = calls // every lost call costs its time-out
+			} else if mode == "rcall-script" {
+				c.Callers, c.Calls = 3, calls*2
 			} else if mode != "rcall" {
 				c.Callers, c.Calls = 1, calls
 			}
